@@ -16,7 +16,7 @@ import sys
 import types
 from fractions import Fraction as Fr
 
-from . import core, snp, tf, sig
+from . import core, snp, tf, sig, rx
 from .core import R, C, event
 
 REPO = os.environ.get('VERIF_REPO', '/repo')
@@ -153,6 +153,7 @@ def build_env(mode='symbolic'):
         'matplotlib': _mod('matplotlib', pyplot=Dummy(), widgets=Dummy(), animation=Dummy()),
         'pyvisa': _mod('pyvisa', ResourceManager=Dummy),
         'warnings': Warnings,
+        're': rx.ReProxy(),
     }
     mods['sklearn.cluster'] = mods['sklearn'].cluster
     mods['pympler.asizeof'] = mods['pympler'].asizeof
